@@ -150,7 +150,7 @@ def run(ctx):
     grog = ctx.grog_binary()
     stats = {"builds": 0, "ok": 0, "platform-error": 0, "nothing-selected": 0, "executed_commands": 0}
     if grog:
-        for w in range(30 if quick else 300):
+        for w in range(50 if quick else 300):
             bad_corr += cli_build(ctx, grog, rng, w, stats, nontrivial)
     cov["cli"] = stats
     cov["distinct_nontrivial"] = len(nontrivial)
